@@ -636,7 +636,7 @@ func init() {
 		NotCov:      "Ed25519 soundness; timestamp semantics.",
 		Assumptions: commonAssumptions})
 	register(&Def{ID: "C28", Run: c28,
-		Explain:     "Decides on SSA: execPublish writes a packet to a peer only past (peer != claimed origin) and (peer != previous hop), forwarding the queued message; (ATOMIC) the seen-cache is used only through its atomic Add — no Get followed by a separate Set — and handleValidMessage delivers (handler goroutines, publish queue) only when Add succeeded for this message's id; router and subscription state only under their mutexes (LOCKSET). (PROVENANCE) the forwarding queue entry carries (verified packet, verified channel, arrival peer), Execute forwards with the recorded previous hop and the stream handler names its own peer as previous hop; sweep bookkeeping as in C27. (PROVENANCE) NewPubMessage stamps timestamp.Now() at full resolution; Release discipline as in C27.",
+		Explain:     "Decides on SSA: execPublish writes a packet to a peer only past (peer != claimed origin) and (peer != previous hop), forwarding the queued message; (ATOMIC) the seen-cache is used only through its atomic Add — no Get followed by a separate Set — and handleValidMessage delivers (handler goroutines, publish queue) only when Add succeeded for this message's id; router and subscription state only under their mutexes (LOCKSET). (PROVENANCE) the forwarding queue entry carries (verified packet, verified channel, arrival peer), Execute forwards with the recorded previous hop and the stream handler names its own peer as previous hop; sweep bookkeeping as in C27. (PROVENANCE) NewPubMessage stamps timestamp.Now() at full resolution; Release discipline as in C27. (LOOPALLOC) a per-channel subscriber set stored under a loop's key is created inside that loop.",
 		NotCov:      "reachability/delivery in a mesh (topology-quantified, dynamic) and exactly-once across router restarts.",
 		Assumptions: commonAssumptions})
 	register(&Def{ID: "C29", Run: c29,
